@@ -16,6 +16,10 @@
 (* Broken variants (must violate EqualsReference / StoreIsReference):      *)
 (*   DedupKeys         - Split sends a key it has already seen only once   *)
 (*   AssembleByArrival - the reply is assembled in completion order        *)
+(*   FoldUnsynchronised - the counts are added to a running sum as the     *)
+(*                       children complete; children are completed by the  *)
+(*                       readers of DIFFERENT backend connections, the     *)
+(*                       addition is a read and a write: updates get lost  *)
 (***************************************************************************)
 EXTENDS Naturals, Sequences, FiniteSets, TLC
 
@@ -23,7 +27,7 @@ CONSTANTS Nodes, Keys,
           Ops,          \* subset of {"mcount", "mdel", "mread", "mwrite"}: EXISTS/TOUCH, DEL/UNLINK, MGET, MSET
           MaxCmds,      \* commands of the (sequential) client
           MaxLen,       \* keys per command
-          DedupKeys, AssembleByArrival
+          DedupKeys, AssembleByArrival, FoldUnsynchronised
 
 Absent == 0
 OKReply == 1000
@@ -35,9 +39,13 @@ VARIABLES
   ref,      \* the single server
   cmds,     \* sequence of [op, ks, vals, kids, exp, st, reply]; kids: sequence of [pos, k, val, st, reply]
   q,        \* q[n]: FIFO of <<command index, kid index>>
-  arrival   \* arrival[c]: kid indexes of command c in completion order
+  arrival,  \* arrival[c]: kid indexes of command c in completion order
+  total,      \* FoldUnsynchronised: total[c] running sum of command c
+  hand      \* FoldUnsynchronised: hand[n] = <<c, i, sum read>> while the reader of node n's connection is between
+            \* reading the running sum and writing it back, <<>> otherwise
 
-vars == <<owner, store, ref, cmds, q, arrival>>
+vars == <<owner, store, ref, cmds, q, arrival, total, hand>>
+SumOps == {"mcount", "mdel"}
 
 KeySeqs == UNION {[1..l -> Keys] : l \in 1..MaxLen}
 
@@ -78,6 +86,7 @@ Init ==
   /\ \E P \in SUBSET Keys : ref = [k \in Keys |-> IF k \in P THEN Preset ELSE Absent]
   /\ store = [n \in Nodes |-> [k \in Keys |-> IF owner[k] = n THEN ref[k] ELSE Absent]]
   /\ cmds = <<>> /\ q = [n \in Nodes |-> <<>>] /\ arrival = <<>>
+  /\ total = <<>> /\ hand = [n \in Nodes |-> <<>>]
 
 AllAnswered == \A c \in 1..Len(cmds) : cmds[c].st = "done"
 
@@ -98,20 +107,34 @@ Issue(op, ks) ==
         /\ ref' = rm[2]
         /\ q' = EnqAll(q, c, kids, 1)
         /\ arrival' = Append(arrival, <<>>)
-  /\ UNCHANGED <<owner, store>>
+        /\ total' = Append(total, 0)
+  /\ UNCHANGED <<owner, store, hand>>
 
-(* node n executes the per-key command at the head of its connection and answers *)
+(* node n executes the per-key command at the head of its connection and answers; the reader of that connection *)
+(* completes the child (onChildDone)                                                                            *)
 NodeExec(n) ==
-  /\ q[n] # <<>>
+  /\ q[n] # <<>> /\ hand[n] = <<>>
   /\ LET c == Head(q[n])[1]
          i == Head(q[n])[2]
          kid == cmds[c].kids[i]
          pk == PerKey(cmds[c].op, store[n][kid.k], kid.val)
+         fold == FoldUnsynchronised /\ cmds[c].op \in SumOps
      IN /\ store' = [store EXCEPT ![n][kid.k] = pk[2]]
-        /\ cmds' = [cmds EXCEPT ![c].kids[i].st = "done", ![c].kids[i].reply = pk[1]]
+        /\ cmds' = [cmds EXCEPT ![c].kids[i].st = IF fold THEN "folding" ELSE "done", ![c].kids[i].reply = pk[1]]
         /\ arrival' = [arrival EXCEPT ![c] = Append(@, i)]
+        /\ hand' = IF fold THEN [hand EXCEPT ![n] = <<c, i, total[c]>>] ELSE hand
   /\ q' = [q EXCEPT ![n] = Tail(@)]
-  /\ UNCHANGED <<owner, ref>>
+  /\ UNCHANGED <<owner, ref, total>>
+
+(* broken variant: the second half of "total += count" *)
+FoldWrite(n) ==
+  /\ hand[n] # <<>>
+  /\ LET c == hand[n][1]
+         i == hand[n][2]
+     IN /\ total' = [total EXCEPT ![c] = hand[n][3] + cmds[c].kids[i].reply]
+        /\ cmds' = [cmds EXCEPT ![c].kids[i].st = "done"]
+  /\ hand' = [hand EXCEPT ![n] = <<>>]
+  /\ UNCHANGED <<owner, store, ref, q, arrival>>
 
 (* the last child has been answered: the parent's reply is assembled *)
 Assemble(c) ==
@@ -119,10 +142,11 @@ Assemble(c) ==
   /\ \A i \in 1..Len(cmds[c].kids) : cmds[c].kids[i].st = "done"
   /\ LET order == IF AssembleByArrival THEN arrival[c] ELSE [i \in 1..Len(cmds[c].kids) |-> i]
          replies == [j \in 1..Len(order) |-> cmds[c].kids[order[j]].reply]
-     IN cmds' = [cmds EXCEPT ![c].st = "done", ![c].reply = Combine(cmds[c].op, replies)]
-  /\ UNCHANGED <<owner, store, ref, q, arrival>>
+     IN cmds' = [cmds EXCEPT ![c].st = "done",
+                             ![c].reply = IF FoldUnsynchronised /\ cmds[c].op \in SumOps THEN <<total[c]>> ELSE Combine(cmds[c].op, replies)]
+  /\ UNCHANGED <<owner, store, ref, q, arrival, total, hand>>
 
-Next == (Len(cmds) < MaxCmds /\ AllAnswered /\ \E op \in Ops, ks \in KeySeqs : Issue(op, ks)) \/ (\E n \in Nodes : NodeExec(n)) \/ (\E c \in 1..Len(cmds) : Assemble(c))
+Next == (Len(cmds) < MaxCmds /\ AllAnswered /\ \E op \in Ops, ks \in KeySeqs : Issue(op, ks)) \/ (\E n \in Nodes : NodeExec(n) \/ FoldWrite(n)) \/ (\E c \in 1..Len(cmds) : Assemble(c))
 Spec == Init /\ [][Next]_vars /\ WF_vars(Next)
 
 -----------------------------------------------------------------------------
